@@ -1745,3 +1745,7 @@ impl From<Numeric> for JsValue {
         }
     }
 }
+
+#[cfg(kani)]
+#[path = "/verif/kani/engine/value_conv.rs"]
+mod verif_kani;
